@@ -394,7 +394,16 @@ def run_corrupt_one(gen, kind, raw_a, raw_b_intact, bits, again=False):
         # Outside the premise of the property: whatever the client makes of it is not judged.
         obs["pattern_not_detected_by_crc16"] = 1
         return viol, obs
-    expected = [baseline_delivery(gen, f.raw) for f in good]
+    expected = []
+    for f in good:
+        b = baseline_delivery(gen, f.raw)
+        if b is None:
+            # a frame the reference frames as whole (e.g. a damaged length field that happens
+            # to cut the frame where the following bytes verify) but which the client cannot
+            # decode on its own either: nothing is delivered from there on
+            obs["reference_frame_undecodable_for_client"] = 1
+            break
+        expected.append(b)
     got = [d for cid, d in out["deliveries"] if cid == out["c1"]]
     if len(good) >= 1 and good[0].raw != raw_a:
         v("harness-inconsistent", note="A not first good frame")
